@@ -4,7 +4,8 @@
    pool ++ holders never gains an element (identifiers may be stranded - that is C05's business - but
    no operation ever creates a second copy of one, and none enters the pool of another kind).  Exclusive
    ownership, "never free while held" and "pools stay inside their initial contents" are corollaries.
-   For counter cells the inequality needs a guard (F24, F1502); the other four kinds hold outright. *)
+   For counter cells the inequality needs a guard (a PDR created by a modification is stored with ctrID 0);
+   the other four kinds hold outright. *)
 From Coq Require Import NArith List Bool Lia ZifyN ZifyNat ZifyBool Arith.
 From UPF Require Import Model.Up4Ids.
 Import ListNotations.
@@ -589,7 +590,7 @@ Proof.
     pose proof (sendCreate_R4 sid r (start (s_u s) pops faults)) as H. rewrite start_u in H.
     destruct (sendCreate sid r (start (s_u s) pops faults)) as [w [pdrs|]]; exact H.
   - destruct (alookup N.eqb sid (s_store s)) as [r0|]; [|apply R4_refl].
-    destruct (apply_updates p_id _ _) as [wp fp]. destruct (apply_updates f_id _ _) as [wf ff]. destruct (apply_updates q_id _ _) as [wq fq].
+    destruct (apply_pdr_updates _ _) as [wp fp]. destruct (apply_updates f_id _ _) as [wf ff]. destruct (apply_updates q_id _ _) as [wq fq].
     match goal with |- context [bind ?a ?b ?c] => pose proof (mono_bind R4 R4_trans _ _ a b (sendUpdate_R4 _ _ _) (fun _ => sendDelete_R4 _ _) c) as H end.
     rewrite start_u in H.
     match goal with |- context [bind ?a ?b ?c] => destruct (bind a b c) as [w [x|]] end; exact H.
@@ -744,14 +745,13 @@ Qed.
 
 Definition tot_ctr (s : state) : list N := ctr_pool (s_u s) ++ live_ctrs (s_store s).
 
-(* the guard: no modification creates or updates a PDR (F1502), no deletion is rejected by the datapath (F24) *)
+(* the guard: no modification creates a PDR (sendUpdate allocates no counter: such a PDR is stored with ctrID 0) *)
 Definition op_guard (o : op) : bool :=
   match o with
-  | OpMod _ m => match mm_cpdrs m, mm_updrs m with [], [] => true | _, _ => false end
+  | OpMod _ m => match mm_cpdrs m with [] => true | _ => false end
   | _ => true
   end.
-Definition ctr_guard (evs : list ev) (xs : list obs) : bool :=
-  forallb (fun e => op_guard (fst e)) evs && forallb (fun x => negb (o_delfail x)) xs.
+Definition ctr_guard (evs : list ev) : bool := forallb (fun e => op_guard (fst e)) evs.
 
 Lemma seq_val : forall A B (m : M A) (k : M B) v, (forall w x, snd (k w) = Ok x -> x = v) -> forall w x, snd ((m ;;; k) w) = Ok x -> x = v.
 Proof. intros A B m k v H w x. rewrite bind_eq. destruct (m w) as [w1 [a|]]. apply H. discriminate. Qed.
@@ -776,23 +776,70 @@ Proof.
   - intros y. rewrite F. specialize (S y). lia.
 Qed.
 
+(* computations that cannot fail *)
+Definition never_err {A} (m : M A) : Prop := forall w, exists a, snd (m w) = Ok a.
+Lemma never_ret : forall A (a : A), never_err (ret a).
+Proof. intros A a w. eexists. reflexivity. Qed.
+Lemma never_get : never_err get_u.
+Proof. intros w. eexists. reflexivity. Qed.
+Lemma never_modify : forall f, never_err (modify_u f).
+Proof. intros f w. eexists. reflexivity. Qed.
+Lemma never_write : forall s, never_err (write s).
+Proof. intros s w. apply write_ok. Qed.
+Lemma never_release : forall p v, never_err (release_cell p v).
+Proof. intros p v w. exists tt. apply release_cell_ok. Qed.
+Lemma never_bind : forall A B (m : M A) (k : A -> M B), never_err m -> (forall a, never_err (k a)) -> never_err (bind m k).
+Proof. intros A B m k Hm Hk w. rewrite bind_eq. destruct (Hm w) as [a Ha]. destruct (m w) as [w1 r]. cbn [snd] in Ha. subst r. apply Hk. Qed.
+Lemma never_forM : forall A (l : list A) (f : A -> M unit), (forall a, never_err (f a)) -> never_err (forM_ l f).
+Proof. intros A l f H. induction l as [|a l IH]. apply never_ret. cbn [forM_]. apply never_bind. apply H. intros _. exact IH. Qed.
+Ltac never_go :=
+  cbv zeta;
+  repeat first
+    [ apply never_ret | apply never_get | apply never_modify | apply never_write | apply never_release
+    | apply never_forM; intros ?
+    | apply never_bind; [|intros ?]
+    | match goal with
+      | |- never_err (if ?c then _ else _) => destruct c
+      | |- never_err (match ?c with _ => _ end) => destruct c
+      end ].
+
+(* a deletion moves the cells of the deleted PDRs into the pool; a REJECTED deletion leaves the pool alone *)
 Lemma sendDelete_ctr : forall sid r w,
-  (forall x, (cnt (ctr_pool (w_u (fst (sendDelete sid r w)))) x <= cnt (ctr_pool (w_u w)) x + cnt (ctrs r) x)%nat).
+  match sendDelete sid r w with
+  | (w', Ok _) => forall x, (cnt (ctr_pool (w_u w')) x <= cnt (ctr_pool (w_u w)) x + cnt (ctrs r) x)%nat
+  | (w', Err) => ctr_pool (w_u w') = ctr_pool (w_u w)
+  end.
 Proof.
-  intros sid r w x. unfold sendDelete. rewrite bind_eq.
-  destruct (releaseCounters_spec (r_pdrs r) w) as [O C].
-  destruct (forM_ (r_pdrs r) (fun p => add_set PCtr (p_ctr p)) w) as [w1 r1]. cbn [fst snd] in O, C. subst r1.
-  match goal with |- context [fst (?m w1)] => assert (mono Rctr m) as F end.
-  { repeat first [ apply modifyUP4_Rctr | apply resetMeters_Rctr | apply removePeers_Rctr | apply removeUE_Rctr
-                 | apply (mono_bind Rctr Rctr_trans); [|intros ?] ]. }
-  specialize (F w1). unfold Rctr in F. rewrite F. apply C.
+  intros sid r w. unfold sendDelete. rewrite bind_eq.
+  pose proof (modifyUP4_Rctr sid (r_pdrs r) (r_fars r) MDel w) as F1. unfold Rctr in F1.
+  destruct (modifyUP4ForwardingConfiguration sid (r_pdrs r) (r_fars r) MDel w) as [w1 [u|]]; cbn [fst] in F1; [|exact F1].
+  rewrite bind_eq. destruct (releaseCounters_spec (r_pdrs r) w1) as [O C].
+  destruct (forM_ (r_pdrs r) (fun p => add_set PCtr (p_ctr p)) w1) as [w2 r2]. cbn [fst snd] in O, C. subst r2.
+  match goal with |- context [?m w2] => assert (mono Rctr m) as F; [|assert (never_err m) as NE] end.
+  { repeat first [ apply resetMeters_Rctr | apply removePeers_Rctr | apply removeUE_Rctr | apply (mono_bind Rctr Rctr_trans); [|intros ?] ]. }
+  { unfold resetMeters, resetOneMeter, removeGTPTunnelPeer. never_go. }
+  specialize (F w2). destruct (NE w2) as [a Ha]. unfold Rctr in F.
+  match goal with |- context [?m w2] => destruct (m w2) as [w3 r3] end. cbn [fst snd] in F, Ha. subst r3.
+  intros x. rewrite F. specialize (C x). rewrite F1 in C. exact C.
 Qed.
 
 Lemma sendDelete_nothing : forall sid w, sendDelete sid no_rules w = (w, Ok tt).
 Proof. intros. reflexivity. Qed.
 
-Lemma apply_updates_nil : forall A (id : A -> N) l, apply_updates id [] l = (l, []).
-Proof. reflexivity. Qed.
+(* Update PDR keeps the counter cells *)
+Lemma update_pdr_ctrs : forall x l l', update_pdr x l = Some l' -> map p_ctr l' = map p_ctr l.
+Proof.
+  intros x. induction l as [|y r IH]; intros l' H; [discriminate|]. cbn [update_pdr] in H. destruct (p_id y =? p_id x).
+  - inversion H. reflexivity.
+  - destruct (update_pdr x r) as [r'|]; [|discriminate]. inversion H. cbn [map]. rewrite (IH r' eq_refl). reflexivity.
+Qed.
+Lemma apply_pdr_updates_ctrs : forall ups l, map p_ctr (fst (apply_pdr_updates ups l)) = map p_ctr l.
+Proof.
+  induction ups as [|x r IH]; intros l; cbn [apply_pdr_updates]. reflexivity.
+  destruct (update_pdr x l) as [l'|] eqn:E.
+  - specialize (IH l'). destruct (apply_pdr_updates r l') as [l'' f]. cbn [fst] in *. rewrite IH. eapply update_pdr_ctrs; eassumption.
+  - apply IH.
+Qed.
 
 Lemma sendUpdate_Rctr : forall sid a u, mono Rctr (sendUpdate sid a u).
 Proof.
@@ -801,43 +848,44 @@ Qed.
 Lemma modseq_Rctr : forall sid a u, mono Rctr (sendUpdate sid a u ;;; sendDelete sid no_rules).
 Proof. intros. apply (mono_bind Rctr Rctr_trans). apply sendUpdate_Rctr. intros _ w. rewrite sendDelete_nothing. reflexivity. Qed.
 
-Lemma step_ctr : forall s o pops faults, op_guard o = true -> o_delfail (snd (step s o pops faults)) = false ->
-  msub (tot_ctr (fst (step s o pops faults))) (tot_ctr s).
+Lemma step_ctr : forall s o pops faults, op_guard o = true -> msub (tot_ctr (fst (step s o pops faults))) (tot_ctr s).
 Proof.
-  intros s o pops faults G D. unfold step in *. destruct o as [sid r|sid m|sid].
+  intros s o pops faults G. unfold step in *. destruct o as [sid r|sid m|sid].
   - destruct ((sid =? 0) || _). apply msub_refl.
     pose proof (sendCreate_ctr sid r (start (s_u s) pops faults)) as H. rewrite start_u in H.
     destruct (sendCreate sid r (start (s_u s) pops faults)) as [w [pdrs|]]; cbn [fst]; unfold tot_ctr; cbn [s_u s_store]; intros x; rewrite !cnt_app.
     + pose proof (live_upsert sid (Rules pdrs (r_fars r) (r_qers r)) (s_store s) x) as L. unfold ctrs in L. cbn [r_pdrs] in L. specialize (H x). lia.
     + specialize (H x). lia.
   - destruct (alookup N.eqb sid (s_store s)) as [r0|] eqn:L; [|apply msub_refl].
-    cbn [op_guard] in G. destruct (mm_cpdrs m); [|discriminate]. destruct (mm_updrs m); [|discriminate].
-    cbn [map]. rewrite apply_updates_nil, app_nil_r.
+    cbn [op_guard] in G. destruct (mm_cpdrs m); [|discriminate].
+    cbn [map]. rewrite app_nil_r.
+    pose proof (apply_pdr_updates_ctrs (map (set_ctr 0) (mm_updrs m)) (r_pdrs r0)) as PC.
+    destruct (apply_pdr_updates _ _) as [wp fp]. cbn [fst] in PC.
     destruct (apply_updates f_id _ _) as [wf ff]. destruct (apply_updates q_id _ _) as [wq fq].
-    match goal with |- context [bind ?a ?b ?c] => pose proof (modseq_Rctr sid (Rules (r_pdrs r0) wf wq) (Rules ([] ++ []) (mm_cfars m ++ ff) (mm_cqers m ++ fq)) c) as H end.
+    match goal with |- context [bind ?a ?b ?c] => pose proof (modseq_Rctr sid (Rules wp wf wq) (Rules ([] ++ fp) (mm_cfars m ++ ff) (mm_cqers m ++ fq)) c) as H end.
     rewrite start_u in H. unfold Rctr in H.
     match goal with |- context [bind ?a ?b ?c] => destruct (bind a b c) as [w [x|]] end; cbn [fst] in *; unfold tot_ctr; cbn [s_u s_store]; intros y; rewrite !cnt_app, H.
-    + pose proof (live_upsert_same sid (Rules (r_pdrs r0) wf wq) r0 (s_store s) y L eq_refl). lia.
-    + assert (ctrs (Rules (firstn (length (r_pdrs r0)) (r_pdrs r0)) (firstn (length (r_fars r0)) wf) (firstn (length (r_qers r0)) wq)) = ctrs r0) as E.
-      { unfold ctrs. cbn [r_pdrs]. rewrite firstn_all. reflexivity. }
+    + pose proof (live_upsert_same sid (Rules wp wf wq) r0 (s_store s) y L PC). lia.
+    + assert (ctrs (Rules (firstn (length (r_pdrs r0)) wp) (firstn (length (r_fars r0)) wf) (firstn (length (r_qers r0)) wq)) = ctrs r0) as E.
+      { unfold ctrs. cbn [r_pdrs]. rewrite <- PC. rewrite <- (map_length p_ctr (r_pdrs r0)), <- PC, map_length, firstn_all. reflexivity. }
       pose proof (live_upsert_same sid _ r0 (s_store s) y L E). lia.
   - destruct (alookup N.eqb sid (s_store s)) as [r|] eqn:L; [|apply msub_refl].
     pose proof (sendDelete_ctr sid r (start (s_u s) pops faults)) as H. rewrite start_u in H.
-    destruct (sendDelete sid r (start (s_u s) pops faults)) as [w [x|]]; cbn [fst snd o_delfail] in *; [|discriminate].
-    unfold tot_ctr. cbn [s_u s_store]. intros y. rewrite !cnt_app. specialize (H y). pose proof (live_remove sid r (s_store s) y L). lia.
+    destruct (sendDelete sid r (start (s_u s) pops faults)) as [w [x|]]; cbn [fst]; unfold tot_ctr; cbn [s_u s_store]; intros y; rewrite !cnt_app.
+    + specialize (H y). pose proof (live_remove sid r (s_store s) y L). lia.
+    + rewrite H. lia.
 Qed.
 
-Lemma run_ctr : forall evs s, ctr_guard evs (snd (run s evs)) = true -> msub (tot_ctr (fst (run s evs))) (tot_ctr s).
+Lemma run_ctr : forall evs s, ctr_guard evs = true -> msub (tot_ctr (fst (run s evs))) (tot_ctr s).
 Proof.
   induction evs as [|[o [pops faults]] evs IH]; intros s G. apply msub_refl.
   cbn [run] in *. pose proof (step_ctr s o pops faults) as H1. destruct (step s o pops faults) as [s1 x1]. cbn [fst snd] in H1.
   specialize (IH s1). destruct (run s1 evs) as [s2 xs]. cbn [fst snd] in *.
-  unfold ctr_guard in G. cbn [forallb fst] in G. rewrite !andb_true_iff in G. destruct G as [[G1 G2] [G3 G4]].
-  apply negb_true_iff in G3.
-  eapply msub_trans. apply IH. unfold ctr_guard. rewrite G2, G4. reflexivity. apply H1; assumption.
+  unfold ctr_guard in G. cbn [forallb fst] in G. rewrite andb_true_iff in G. destruct G as [G1 G2].
+  eapply msub_trans. apply IH. exact G2. apply H1; assumption.
 Qed.
 
-Theorem conserved_counters : forall c evs, ctr_guard evs (snd (run (init c) evs)) = true ->
+Theorem conserved_counters : forall c evs, ctr_guard evs = true ->
   msub (pool KCtr (fst (run (init c) evs)) ++ holders KCtr (fst (run (init c) evs))) (i_ctr c).
 Proof.
   intros c evs G. pose proof (run_ctr evs (init c) G) as H. unfold tot_ctr in H. cbn [init s_u s_store ctr_pool live_ctrs flat_map] in H.
@@ -850,7 +898,6 @@ Definition benign (e : site * wres) : bool :=
   match e with
   | (_, WOk) => true
   | (SPdr _, WExists) => true     (* tolerated by design: the entry is already there *)
-  | (SPdr _, WUnk) => true        (* tolerated by accident: an empty p4 error list (F1501) *)
   | _ => false
   end.
 (* if the computation succeeds, every Write it made was answered benignly *)
@@ -968,27 +1015,23 @@ Proof.
     destruct (sendCreate sid r (start (s_u s) pops faults)) as [w [pdrs|]]; cbn [snd o_acc o_log]; [|discriminate].
     intros _. destruct H as (l & E & B). cbn [start w_log app] in E. rewrite E. exact B.
   - destruct (alookup N.eqb sid (s_store s)) as [r0|]; [|discriminate].
-    destruct (apply_updates p_id _ _) as [wp fp]. destruct (apply_updates f_id _ _) as [wf ff]. destruct (apply_updates q_id _ _) as [wq fq].
+    destruct (apply_pdr_updates _ _) as [wp fp]. destruct (apply_updates f_id _ _) as [wf ff]. destruct (apply_updates q_id _ _) as [wq fq].
     match goal with |- context [bind ?a ?b ?c] => pose proof (modseq_clean sid (Rules wp wf wq) (Rules (map (set_ctr 0) (mm_cpdrs m) ++ fp) (mm_cfars m ++ ff) (mm_cqers m ++ fq)) c) as H;
                                                   destruct (bind a b c) as [w [x|]] end; cbn [snd o_acc o_log]; [|discriminate].
     intros _. destruct H as (l & E & B). cbn [start w_log app] in E. rewrite E. exact B.
 Qed.
 
 Definition failed (e : site * wres) : bool := match snd e with WFail | WUnk => true | _ => false end.
-Definition unk_tolerated (e : site * wres) : bool := match e with (SPdr _, WUnk) => true | _ => false end.
 
 Theorem fail_rejects : forall s o pops faults, is_del o = false ->
-  existsb unk_tolerated (o_log (snd (step s o pops faults))) = false ->
   existsb failed (o_log (snd (step s o pops faults))) = true ->
   o_acc (snd (step s o pops faults)) = false.
 Proof.
-  intros s o pops faults Hd Hu Hf. destruct (o_acc (snd (step s o pops faults))) eqn:A; [|reflexivity].
+  intros s o pops faults Hd Hf. destruct (o_acc (snd (step s o pops faults))) eqn:A; [|reflexivity].
   pose proof (accepted_all_benign s o pops faults Hd A) as B.
   exfalso. apply existsb_exists in Hf. destruct Hf as (e & He & Fe).
   rewrite forallb_forall in B. specialize (B e He).
-  assert (unk_tolerated e = false) as U.
-  { destruct (unk_tolerated e) eqn:U; [|reflexivity]. assert (existsb unk_tolerated (o_log (snd (step s o pops faults))) = true) by (apply existsb_exists; eauto). congruence. }
-  destruct e as [st r]. unfold failed in Fe. cbn [snd] in Fe. destruct r; try discriminate; destruct st; cbn in B, U; discriminate.
+  destruct e as [st r]. unfold failed in Fe. cbn [snd] in Fe. destruct r; try discriminate; destruct st; cbn in B; discriminate.
 Qed.
 
 (* lifted to histories: the i-th operation *)
@@ -1003,9 +1046,9 @@ Proof.
 Qed.
 
 Theorem fail_rejects_run : forall c evs i e x, nth_error evs i = Some e -> nth_error (snd (run (init c) evs)) i = Some x ->
-  is_del (fst e) = false -> existsb unk_tolerated (o_log x) = false -> existsb failed (o_log x) = true -> o_acc x = false.
+  is_del (fst e) = false -> existsb failed (o_log x) = true -> o_acc x = false.
 Proof.
-  intros c evs i e x He Hx Hd Hu Hf. destruct (run_nth evs (init c) i e He) as (si & Hs). rewrite Hs in Hx. inversion Hx; subst x.
+  intros c evs i e x He Hx Hd Hf. destruct (run_nth evs (init c) i e He) as (si & Hs). rewrite Hs in Hx. inversion Hx; subst x.
   apply fail_rejects; assumption.
 Qed.
 
@@ -1013,7 +1056,7 @@ Qed.
 Definition counters_ok (c : cfg) (s : state) : Prop :=
   NoDup (holders KCtr s) /\ (forall id : N, In id (pool KCtr s) -> ~ In id (holders KCtr s)) /\
   incl (pool KCtr s) (i_ctr c) /\ incl (holders KCtr s) (i_ctr c).
-Theorem counters_guarded : forall c evs, ctr_guard evs (snd (run (init c) evs)) = true -> NoDup (i_ctr c) ->
+Theorem counters_guarded : forall c evs, ctr_guard evs = true -> NoDup (i_ctr c) ->
   counters_ok c (fst (run (init c) evs)).
 Proof.
   intros c evs G Hn. pose proof (conserved_counters c evs G) as H. set (s := fst (run (init c) evs)) in *.
